@@ -165,6 +165,7 @@ struct Gen {
     plan.set("pct_depth", (long)(1 + rng.below(3)));
     plan.set("guard_points", rng.chance(0.9) ? 1 : 0);
     plan.set("preempt_depth", (long)rng.below(4));
+    plan.set("cv_spurious", (long)(rng.chance(0.5) ? 0 : 1 + rng.below(2)));   // spurious wake-ups a condition-variable wait may see
     // shared operands, built from raw coefficient data only
     for (int g = 0; g < ngr; ++g) {
       const GroupVT* vt = vts[g];
@@ -346,6 +347,7 @@ void run_c14(const RunOpts& o, Result& res) {
   const long budget = 4 * nops + 6L * vs_guards_count() + npre + 64 + 2L * nthreads;
   vs_sim_begin(plan.seed, nthreads, (int)plan.cfg_int("policy", 0), (int)plan.cfg_int("pct_depth", 1), 3 * nops + 16, budget);
   vs_set_guard_points((int)plan.cfg_int("guard_points", 1));
+  vs_set_cv_spurious((int)plan.cfg_int("cv_spurious", 0));
   for (int t = 0; t < nthreads; ++t) {
     if (!pre[t].empty()) vs_set_preempts(t, pre[t].data(), (int)pre[t].size());
     long late = plan.cfg_int(("late_" + std::to_string(t)).c_str(), 0);
@@ -371,7 +373,7 @@ void run_c14(const RunOpts& o, Result& res) {
   res.num["ops"] = (double)nops;
   res.num["f.guard_contention"] = (double)vs_guard_contentions();
   { long w = 0, n = 0, e = 0, to = 0; vs_cv_stats(&w, &n, &e, &to);
-    if (w || n) { res.num["f.condvar_wait"] = (double)w; res.num["n.condvar_notify"] = (double)n; res.num["n.condvar_notify_without_waiter"] = (double)e; res.num["f.condvar_timeout"] = (double)to; } }
+    if (w || n) { res.num["f.condvar_wait"] = (double)w; res.num["n.condvar_notify"] = (double)n; res.num["n.condvar_notify_without_waiter"] = (double)e; res.num["f.condvar_timeout"] = (double)to; res.num["f.condvar_spurious_wakeup"] = (double)vs_cv_spurious_fired(); } }
   res.num["f.preempt"] = (double)vs_preempts_fired();
   res.num["f.stall"] = (double)vs_stalls_fired();
   res.num["f.prewarm"] = nprewarm;
